@@ -299,6 +299,36 @@ func cmdRun(args []string) int {
 		total.Merge(results[i], maxSamples, maxViolations)
 	}
 
+	// 2b. C08 (e): the first outcomes recomputed in one more process with another
+	// GOMAXPROCS and another chunking must give the same digest
+	if *prop == "C08" && !infra {
+		head := runs
+		if head > 400 {
+			head = 400
+		}
+		cmd := exec.Command(self, "worker", "-property", *prop, "-tier", *tier,
+			"-seed", strconv.FormatUint(seed, 10), "-from", "0", "-to", strconv.Itoa(head))
+		cmd.Env = append(os.Environ(), "GOMAXPROCS=1")
+		var out bytes.Buffer
+		cmd.Stdout = &out
+		if err := cmd.Run(); err != nil {
+			fmt.Fprintln(os.Stderr, "INFRA: second-process pass:", err)
+			infra = true
+		} else {
+			var r2 api.Result
+			if err := json.Unmarshal(out.Bytes(), &r2); err != nil {
+				fmt.Fprintln(os.Stderr, "INFRA: second-process pass:", err)
+				infra = true
+			} else if r2.Counters["digest_head_sum"] != total.Counters["digest_head_sum"] {
+				fmt.Fprintf(os.Stderr, "INFRA: outcomes of run indices [0,%d) differ between processes (digest %d vs %d): harness or majorana is not deterministic across processes; no verdict\n",
+					head, total.Counters["digest_head_sum"], r2.Counters["digest_head_sum"])
+				infra = true
+			} else {
+				total.Count("second_process_outcomes_compared", int64(head))
+			}
+		}
+	}
+
 	// 3. classify violations
 	outDir := filepath.Join(verifDir(), "out", *prop)
 	os.MkdirAll(outDir, 0o755)
